@@ -10,10 +10,19 @@ entry whose full step leaves the box must end exactly on the bound (it may not m
 The update is repeated (each run_model = one more Newton iteration from the previous in-bounds point).
 
 Mechanism keys: <mechanism>:<line search>:<bound_enforcement>:<observable>.  <mechanism> is the scaling class of
-the case (no-scale / pos-scale / neg-scale(ref<ref0)); under negative scaling it is refined to
+the case (no-scale / pos-scale / neg-scale(ref<ref0) / mixed-sign-array-scale = a bounded variable whose array
+ref/ref0 give ref - ref0 of both signs across its own entries); under negative scaling it is refined to
 'scaled-bounds-not-swapped(ref<ref0)' only when the line search's scaled bound arrays are seen to be the unswapped
-images of the declared bounds (diagnose_scaled_bounds; classification only, the verdict never depends on it), so
-any other defect under negative scaling keeps the generic key.
+images of the declared bounds, and to 'scaled-bounds-swapped-on-positive-entries(mixed-sign-array-scale)' only when
+the negatively scaled entries are right but positively scaled entries hold exchanged images
+(diagnose_scaled_bounds; classification only, the verdict never depends on it), so any other defect under
+negative scaling keeps the generic key.
+
+Scaling dimensions of the generator (per variable): none / scalar / arrays with one sign / arrays with mixed signs
+within the variable; array forms ref+ref0, ref only (scalar ref0), ref0 only (scalar ref); single entries left
+unscaled (ref=1, ref0=0) next to scaled ones; per-entry +-inf holes and one-sided (undeclared) bounds combined with
+all of these; several bounded variables with different sign patterns and unbounded variables in between (offsets
+into the line search's bound arrays); size-4 variables declared with shape (2, 2) (2-D bound/ref arrays).
 
 Hooks (plain wrappers, observation only): openmdao.solvers.linesearch.backtracking._enforce_bounds_vector /
 _scalar / _wall count kernel executions; LinesearchSolver.solve is wrapped to count line-search entries.
@@ -28,9 +37,11 @@ from omv.ref import boundstep as R
 PROPERTY = 'C10'
 LEVEL = 'exploration'
 TECHNIQUE = 'runtime monitoring: closed-form Newton step + bound/step inequalities checked at get_val'
-RULE = ('random tiny implicit models (1-2 components, 1-3 outputs each of size 1-3) with bound patterns '
-        'none/lower/upper/both, scalar and per-entry arrays incl. +-inf entries; scalings ref/ref0 none, positive, '
-        'array, ref<ref0, negative ref; res_ref; start points interior / on a bound / corner; Newton at group or '
+RULE = ('random tiny implicit models (1-2 components, 1-4 outputs each of size 1-4, size 4 also as shape (2,2)) with '
+        'bound patterns none/lower/upper/both, scalar and per-entry arrays incl. +-inf entries; scalings ref/ref0 '
+        'none, positive, ref<ref0, negative ref, arrays (ref and/or ref0) with one sign or with mixed signs of '
+        'ref-ref0 inside one variable, partly unscaled arrays; res_ref; start points interior / on a bound / corner; '
+        'Newton at group or '
         'component level; BoundsEnforceLS and ArmijoGoldsteinLS(alpha<=1, rho, c, Armijo/Goldstein) x '
         'bound_enforcement vector/scalar/wall; 1-3 successive updates; distinct = distinct structural '
         'description (sizes, bound pattern, scaling class, start class, ls, enforcement); non-trivial = the full '
@@ -46,7 +57,15 @@ REQUIRED_COUNTERS = ['obs:kernel:vector', 'obs:kernel:scalar', 'obs:kernel:wall'
                      'cell:BoundsEnforceLS/vector', 'cell:BoundsEnforceLS/scalar', 'cell:BoundsEnforceLS/wall',
                      'cell:ArmijoGoldsteinLS/vector', 'cell:ArmijoGoldsteinLS/scalar',
                      'cell:ArmijoGoldsteinLS/wall', 'cell:scale/pos', 'cell:scale/neg', 'cell:scale/none',
-                     'obs:ag-backtracked']
+                     'obs:ag-backtracked', 'cell:scale/mixsign', 'cell:scale/array-ref+scalar-ref0',
+                     'cell:scale/scalar-ref+array-ref0', 'cell:scale/array-ref+array-ref0',
+                     'cell:scale/partly-unscaled-array', 'cell:shape/2d-array-bounds-or-scaling',
+                     'cell:neg/one-sided-entry', 'cell:mixsign/one-sided-entry',
+                     'cell:mixsign/one-bound-undeclared', 'cell:mixsign/array-bounds', 'cell:mixsign/scalar-bounds',
+                     'cell:mixsign/other-bounded-var-with-different-sign-pattern',
+                     'cell:layout/bounded-var-after-unbounded-var', 'cell:layout/mixsign-var-after-unbounded-var',
+                     'obs:mixsign-var-step-left-box-in-positive-entry',
+                     'obs:mixsign-var-step-left-box-in-negative-entry']
 SHARD_TIMEOUT = {'quick': 900, 'thorough': 3000}
 
 _hooked = {}
@@ -86,19 +105,92 @@ def install_hooks(acc):
 # ----------------------------------------------------------------------------------------------
 # case generation
 # ----------------------------------------------------------------------------------------------
+def _gen_scaling(rng, n, sm):
+    """ref, ref0 (None / scalar / list of n) for one variable.  sm: none / pos / neg / mixsign (n >= 2: the sign of
+    ref - ref0 differs between the entries of the one variable).  Array forms: both arrays, only ref an array
+    (scalar ref0), only ref0 an array (scalar ref); single entries may be left unscaled (ref=1, ref0=0)."""
+    if sm == 'none':
+        return None, None
+
+    def mag():
+        return round(rng.choice([0.1, 0.5, 2.0, 10.0]) * rng.uniform(0.5, 1.5), 4)
+
+    def r0():
+        return rng.choice([0.0, 0.0, round(rng.uniform(-2, 2), 3)])
+    if n == 1 or (sm != 'mixsign' and rng.random() < 0.5):
+        ref0 = r0()
+        return round(ref0 + (-mag() if sm == 'neg' else mag()), 4), ref0
+    if sm == 'mixsign':
+        signs = [1, -1] + [rng.choice([1, -1]) for _ in range(n - 2)]
+        rng.shuffle(signs)
+    else:
+        signs = [-1 if sm == 'neg' else 1] * n
+    form = rng.choice(['both', 'both', 'ref', 'ref0'])
+    hole = rng.random() < 0.4           # some entries unscaled next to scaled ones
+    if form == 'both':
+        ref, ref0 = [], []
+        for sg in signs:
+            if hole and sg > 0 and rng.random() < 0.5:
+                ref.append(1.0)
+                ref0.append(0.0)
+            else:
+                z = r0()
+                ref0.append(z)
+                ref.append(round(z + sg * mag(), 4))
+        return ref, ref0
+    if form == 'ref':
+        z = 0.0 if hole else r0()
+        ref = [1.0 if (hole and z == 0.0 and sg > 0 and rng.random() < 0.5) else round(z + sg * mag(), 4)
+               for sg in signs]
+        return ref, z
+    ref = rng.choice([1.0, round(rng.uniform(-2, 2), 3)])
+    return ref, [round(ref - sg * mag(), 4) for sg in signs]
+
+
+def _factor(v):
+    """per-entry ref - ref0 of a variable spec (ones when unscaled)"""
+    n = v['size']
+    return _arr(v['ref'], n, 1.0) - _arr(v['ref0'], n, 0.0)
+
+
+def _scale_class(v):
+    if v['ref'] is None:
+        return 'none'
+    f = _factor(v)
+    if np.all(f < 0):
+        return 'neg'
+    return 'mixsign' if np.any(f < 0) else 'pos'
+
+
 def gen_case(rng, idx):
     ncomp = rng.choice([1, 1, 2])
     level = rng.choice(['group', 'comp']) if ncomp == 1 else 'group'
+    scale_mode = rng.choice(['none', 'pos', 'pos', 'neg', 'mixed', 'mixsign', 'mixsign'])
+    sizes = [1, 1, 2, 3] if scale_mode != 'mixsign' else [1, 2, 3, 3, 4]
     vars_ = []
     for c in range(ncomp):
-        for j in range(rng.choice([1, 1, 2, 3]) if ncomp == 1 else rng.choice([1, 2])):
-            vars_.append({'comp': c, 'name': 'v%d' % len(vars_), 'size': rng.choice([1, 1, 2, 3])})
+        for j in range(rng.choice([1, 1, 2, 3, 4]) if ncomp == 1 else rng.choice([1, 2])):
+            vars_.append({'comp': c, 'name': 'v%d' % len(vars_), 'size': rng.choice(sizes)})
+    if scale_mode == 'mixsign' and all(v['size'] == 1 for v in vars_):
+        rng.choice(vars_)['size'] = rng.choice([2, 3, 4])
     N = sum(v['size'] for v in vars_)
-    scale_mode = rng.choice(['none', 'pos', 'pos', 'neg', 'mixed'])
     for v in vars_:
         n = v['size']
-        # --- bounds
-        pat = rng.choice(['both', 'both', 'both', 'lower', 'upper', 'none', 'array'])
+        # a size-4 variable may be declared with shape (2, 2): bounds / ref / ref0 arrays are then 2-D
+        v['shape'] = [2, 2] if (n == 4 and rng.random() < 0.5) else [n]
+        # --- scaling class of this variable
+        if scale_mode == 'mixed':
+            sm = rng.choice(['none', 'pos', 'neg'] + (['mixsign'] if n > 1 else []))
+        elif scale_mode == 'mixsign':
+            sm = 'mixsign' if (n > 1 and rng.random() < 0.75) else rng.choice(['none', 'pos', 'neg'])
+        else:
+            sm = scale_mode
+        # --- bounds (per-entry arrays more often next to array scalings; an unbounded variable now and then so
+        #     that the offsets of the following variables into the bound arrays matter)
+        pats = ['both', 'both', 'both', 'lower', 'upper', 'none', 'array']
+        if sm == 'mixsign':
+            pats += ['array', 'array', 'lower', 'upper']
+        pat = rng.choice(pats)
         lo = hi = None
         if pat in ('both', 'lower'):
             lo = round(rng.uniform(-3, 1), 3)
@@ -117,23 +209,8 @@ def gen_case(rng, idx):
             elif rng.random() < 0.2:
                 lo = None
         v['lower'], v['upper'] = lo, hi
-        # --- scaling
-        sm = scale_mode if scale_mode != 'mixed' else rng.choice(['none', 'pos', 'neg'])
-        if sm == 'none':
-            v['ref'], v['ref0'] = None, None
-        else:
-            def one():
-                ref0 = rng.choice([0.0, 0.0, round(rng.uniform(-2, 2), 3)])
-                d = round(rng.choice([0.1, 0.5, 2.0, 10.0]) * rng.uniform(0.5, 1.5), 4)
-                if sm == 'neg':
-                    d = -d
-                return round(ref0 + d, 4), ref0
-            if n > 1 and rng.random() < 0.4:
-                pairs = [one() for _ in range(n)]
-                v['ref'], v['ref0'] = [p[0] for p in pairs], [p[1] for p in pairs]
-            else:
-                v['ref'], v['ref0'] = one()
-        v['scale_class'] = sm
+        v['ref'], v['ref0'] = _gen_scaling(rng, n, sm)
+        v['scale_class'] = _scale_class(v)
         v['res_ref'] = rng.choice([None, None, round(rng.uniform(0.2, 5), 3)])
     # --- system: diagonally dominant M
     M = [[0.0] * N for _ in range(N)]
@@ -198,8 +275,13 @@ def structure(case):
             if isinstance(b, list):
                 return 'array' + ('+inf' if any(not np.isfinite(float(x)) for x in b) else '')
             return 'scalar'
+        f = _factor(v)
         vs.append([v['comp'], v['size'], cls(v['lower']), cls(v['upper']), v['scale_class'],
-                   isinstance(v['ref'], list), v['res_ref'] is not None])
+                   isinstance(v['ref'], list), v['res_ref'] is not None, isinstance(v['ref0'], list),
+                   len(v.get('shape', [0])) > 1, [int(x) for x in np.sign(f)] if v['scale_class'] == 'mixsign' else 0,
+                   bool(v['ref'] is not None and np.any((_arr(v['ref'], v['size'], 1.0) == 1.0) &
+                                                        (_arr(v['ref0'], v['size'], 0.0) == 0.0)) and
+                        np.any(f != 1.0))])
     o = dict(case['lsopts'])
     return [case['ncomp'], case['level'], vs, case['kappa'] != 0, case['start'], case['ls'],
             o.get('bound_enforcement'), o.get('alpha'), o.get('method'), o.get('maxiter')]
@@ -228,29 +310,28 @@ def build(case):
             k = self.options['k']
             for v in vars_:
                 n = v['size']
+                shp = tuple(v.get('shape') or [n])
                 if v['comp'] == k:
                     kw = {}
-                    if v['lower'] is not None:
-                        kw['lower'] = np.array(_arr(v['lower'], n, 0.0)) if isinstance(v['lower'], list) \
-                            else v['lower']
-                    if v['upper'] is not None:
-                        kw['upper'] = np.array(_arr(v['upper'], n, 0.0)) if isinstance(v['upper'], list) \
-                            else v['upper']
+                    for key in ('lower', 'upper'):
+                        if v[key] is not None:
+                            kw[key] = _arr(v[key], n, 0.0).reshape(shp) if isinstance(v[key], list) else v[key]
                     if v['ref'] is not None:
-                        kw['ref'] = np.array(v['ref']) if isinstance(v['ref'], list) else v['ref']
-                        kw['ref0'] = np.array(v['ref0']) if isinstance(v['ref0'], list) else v['ref0']
+                        for key in ('ref', 'ref0'):
+                            kw[key] = np.array(v[key], dtype=float).reshape(shp) if isinstance(v[key], list) \
+                                else v[key]
                     if v['res_ref'] is not None:
                         kw['res_ref'] = v['res_ref']
-                    self.add_output(v['name'], val=np.ones(n), **kw)
+                    self.add_output(v['name'], val=np.ones(shp), **kw)
                 else:
-                    self.add_input(v['name'], val=np.ones(n))
+                    self.add_input(v['name'], val=np.ones(shp))
             self.declare_partials('*', '*')
 
         def _full(self, inputs, outputs):
             k = self.options['k']
             y = np.zeros(N, dtype=outputs.asarray().dtype)
             for v in vars_:
-                y[offs[v['name']]] = (outputs if v['comp'] == k else inputs)[v['name']]
+                y[offs[v['name']]] = np.ravel((outputs if v['comp'] == k else inputs)[v['name']])
             return y
 
         def apply_nonlinear(self, inputs, outputs, residuals):
@@ -259,7 +340,7 @@ def build(case):
             r = M.dot(y) + kappa * y ** 3 - t
             for v in vars_:
                 if v['comp'] == k:
-                    residuals[v['name']] = r[offs[v['name']]]
+                    residuals[v['name']] = r[offs[v['name']]].reshape(tuple(v.get('shape') or [v['size']]))
 
         def linearize(self, inputs, outputs, partials):
             k = self.options['k']
@@ -294,22 +375,25 @@ def build(case):
 
 
 def diagnose_scaled_bounds(p, case, lower, upper, ref, ref0, declared):
-    """Classification only (never decides a verdict): True when the line search's scaled bound arrays are the
-    plain images (bound - ref0)/(ref - ref0) of the declared bounds also on entries whose scaling factor is
-    negative, i.e. scaled lower > scaled upper there because the two were not exchanged.  Any other state of
-    the arrays (correct, or wrong in a different way, or not inspectable) returns False so that a different
-    defect under negative scaling keeps the generic 'neg-scale(ref<ref0)' key."""
+    """Classification only (never decides a verdict).  Looks at the line search's scaled bound arrays:
+    'not-swapped' - they are the plain images (bound - ref0)/(ref - ref0) of the declared bounds also on entries
+        whose scaling factor is negative, i.e. scaled lower > scaled upper there because the two were not exchanged;
+    'swapped-on-positive' - the entries with a negative factor are right, but entries with a POSITIVE factor hold
+        the exchanged images (the exchange was applied to more entries than the negative ones);
+    None - any other state of the arrays (correct, or wrong in a different way, or not inspectable), so that a
+        different defect keeps the generic scaling-class key."""
     try:
         ls = p._omv_linesearch
         n = lower.size
         L = np.full(n, -np.inf) if ls._lower_bounds is None else np.asarray(ls._lower_bounds, dtype=float)
         U = np.full(n, np.inf) if ls._upper_bounds is None else np.asarray(ls._upper_bounds, dtype=float)
         if L.shape != (n,) or U.shape != (n,):
-            return False
+            return None
         neg = (ref - ref0 < 0) & declared
+        pos = (ref - ref0 > 0) & declared
         with np.errstate(all='ignore'):
-            img_lo = (lower - ref0) / (ref - ref0)      # image of the declared lower bound (+inf if none)
-            img_hi = (upper - ref0) / (ref - ref0)      # image of the declared upper bound (-inf if none)
+            img_lo = (lower - ref0) / (ref - ref0)      # image of the declared lower bound (inf if none)
+            img_hi = (upper - ref0) / (ref - ref0)      # image of the declared upper bound (inf if none)
 
         def same(a, b):
             return (a == b) | (np.isfinite(a) & np.isfinite(b) & (np.abs(a - b) <= 1e-12 * (1 + np.abs(b))))
@@ -317,11 +401,20 @@ def diagnose_scaled_bounds(p, case, lower, upper, ref, ref0, declared):
         # and the array called 'upper' the image of the declared upper bound (or nothing, +inf)
         uns_lo = same(L, img_lo) | (np.isinf(img_lo) & (L == -np.inf))
         uns_hi = same(U, img_hi) | (np.isinf(img_hi) & (U == np.inf))
-        right = same(L, img_hi) & same(U, img_lo)
-        wrong = neg & ~right
-        return bool(wrong.any() and np.all(uns_lo[wrong] & uns_hi[wrong]))
+        # swapped: 'lower' holds the image of the declared upper bound (or nothing) and vice versa
+        swp_lo = same(L, img_hi) | (np.isinf(img_hi) & (L == -np.inf))
+        swp_hi = same(U, img_lo) | (np.isinf(img_lo) & (U == np.inf))
+        right_neg = same(L, img_hi) & same(U, img_lo)
+        right_pos = same(L, img_lo) & same(U, img_hi)
+        wrong = neg & ~right_neg
+        if wrong.any():
+            return 'not-swapped' if np.all(uns_lo[wrong] & uns_hi[wrong]) else None
+        wrong = pos & ~right_pos
+        if wrong.any() and np.all(swp_lo[wrong] & swp_hi[wrong]):
+            return 'swapped-on-positive'
+        return None
     except Exception:
-        return False
+        return None
 
 
 def run_one(case, acc):
@@ -343,11 +436,16 @@ def run_one(case, acc):
                                for v in vars_])
     negscale = bool(np.any((ref - ref0 < 0) & declared))
     anyscale = any(v['ref'] is not None for v in vars_)
-    scale_cls = 'neg' if negscale else ('pos' if anyscale else 'none')
+    # variables with declared bounds whose scaling factor changes sign between their own entries
+    dvars = [v for v in vars_ if (v['lower'] is not None) or (v['upper'] is not None)]
+    mixvars = [v for v in dvars if _scale_class(v) == 'mixsign']
+    scale_cls = 'mixsign' if mixvars else ('neg' if negscale else ('pos' if anyscale else 'none'))
+    cells = _cells(vars_, dvars, mixvars)
     meth = case['lsopts']['bound_enforcement']
     alpha = float(case['lsopts'].get('alpha', 1.0))
     # mechanism class first (refined after setup by diagnose_scaled_bounds), then the configuration cell
-    mech = 'neg-scale(ref<ref0)' if negscale else ('pos-scale' if anyscale else 'no-scale')
+    mech = 'mixed-sign-array-scale' if mixvars else \
+        ('neg-scale(ref<ref0)' if negscale else ('pos-scale' if anyscale else 'no-scale'))
     keybase = '%s:%s:%s' % (mech, case['ls'], meth)
     u0 = np.array(case['y0'], dtype=float)
     if np.any(u0 < lower) or np.any(u0 > upper) or np.any(lower >= upper):
@@ -362,15 +460,21 @@ def run_one(case, acc):
         def names():
             for v in vars_:
                 yield 'c%d.%s' % (v['comp'], v['name']), offs[v['name']]
+        shapes = {'c%d.%s' % (v['comp'], v['name']): tuple(v.get('shape') or [v['size']]) for v in vars_}
         p.final_setup()
-        if negscale and diagnose_scaled_bounds(p, case, lower, upper, ref, ref0, declared):
-            keybase = '%s:%s:%s' % ('scaled-bounds-not-swapped(ref<ref0)', case['ls'], meth)
+        if negscale:
+            diag = diagnose_scaled_bounds(p, case, lower, upper, ref, ref0, declared)
+            if diag == 'not-swapped':
+                keybase = '%s:%s:%s' % ('scaled-bounds-not-swapped(ref<ref0)', case['ls'], meth)
+            elif diag == 'swapped-on-positive':
+                keybase = '%s:%s:%s' % ('scaled-bounds-swapped-on-positive-entries(mixed-sign-array-scale)',
+                                        case['ls'], meth)
         bad = False
         judged_any = False
         nontrivial = False
         for it in range(case['updates']):
             for nm, sl in names():
-                p.set_val(nm, u0[sl])
+                p.set_val(nm, u0[sl].reshape(shapes[nm]))
             D, J = R.newton_step(M, t, kappa, u0)
             cond_s = R.scaled_condition(J, ref - ref0, res_scale)
             if not np.isfinite(cond_s) or cond_s > 1e6 or not np.all(np.isfinite(D)):
@@ -392,6 +496,14 @@ def run_one(case, acc):
             if left.any():
                 acc.count('obs:full-step-left-box')
                 nontrivial = True
+                if mixvars:
+                    f = ref - ref0
+                    for v in mixvars:
+                        sl = offs[v['name']]
+                        if np.any(left[sl] & (f[sl] > 0)):
+                            acc.count('obs:mixsign-var-step-left-box-in-positive-entry')
+                        if np.any(left[sl] & (f[sl] < 0)):
+                            acc.count('obs:mixsign-var-step-left-box-in-negative-entry')
             if not np.all(np.isfinite(u1)):
                 acc.viol('%s:non-finite-output' % keybase, 'outputs after the update: %s [update %d, u0=%s, '
                          'step=%s]' % (u1.tolist(), it, u0.tolist(), D.tolist()), case, new_case=not bad)
@@ -429,6 +541,8 @@ def run_one(case, acc):
         if judged_any:
             acc.count('cell:%s/%s' % (case['ls'], meth))
             acc.count('cell:scale/%s' % scale_cls)
+            for c in cells:
+                acc.count(c)
         if bad:
             return
         if judged_any:
@@ -441,6 +555,54 @@ def run_one(case, acc):
             p.cleanup()
         except Exception:
             pass
+
+
+def _cells(vars_, dvars, mixvars):
+    """Cells of the scaling/bound-layout grid a case visits (evidence only)."""
+    cells = set()
+
+    def holes(v):       # one-sided bound or per-entry +-inf: some entry has only one finite bound
+        lo, hi = _arr(v['lower'], v['size'], -np.inf), _arr(v['upper'], v['size'], np.inf)
+        return bool(np.any(np.isfinite(lo) != np.isfinite(hi)))
+    for v in dvars:
+        f = _factor(v)
+        if isinstance(v['ref'], list) and not isinstance(v['ref0'], list):
+            cells.add('cell:scale/array-ref+scalar-ref0')
+        if isinstance(v['ref0'], list) and not isinstance(v['ref'], list):
+            cells.add('cell:scale/scalar-ref+array-ref0')
+        if isinstance(v['ref'], list) and isinstance(v['ref0'], list):
+            cells.add('cell:scale/array-ref+array-ref0')
+        if v['ref'] is not None and v['size'] > 1:
+            un = (_arr(v['ref'], v['size'], 1.0) == 1.0) & (_arr(v['ref0'], v['size'], 0.0) == 0.0)
+            if un.any() and not un.all():
+                cells.add('cell:scale/partly-unscaled-array')
+        if len(v.get('shape') or [0]) > 1 and (isinstance(v['ref'], list) or isinstance(v['lower'], list) or
+                                               isinstance(v['upper'], list)):
+            cells.add('cell:shape/2d-array-bounds-or-scaling')
+        if np.all(f < 0) and holes(v):
+            cells.add('cell:neg/one-sided-entry')
+    for v in mixvars:
+        if holes(v):
+            cells.add('cell:mixsign/one-sided-entry')
+        if v['lower'] is None or v['upper'] is None:
+            cells.add('cell:mixsign/one-bound-undeclared')
+        if isinstance(v['lower'], list) or isinstance(v['upper'], list):
+            cells.add('cell:mixsign/array-bounds')
+        else:
+            cells.add('cell:mixsign/scalar-bounds')
+    pats = set(tuple(np.sign(_factor(v)).astype(int)) if v['size'] > 1 else int(np.sign(_factor(v))[0])
+               for v in dvars)
+    if len(dvars) > 1 and mixvars and len(pats) > 1:
+        cells.add('cell:mixsign/other-bounded-var-with-different-sign-pattern')
+    seen_unbounded = False
+    for v in vars_:
+        if v['lower'] is None and v['upper'] is None:
+            seen_unbounded = True
+        elif seen_unbounded:
+            cells.add('cell:layout/bounded-var-after-unbounded-var')
+            if _scale_class(v) == 'mixsign':
+                cells.add('cell:layout/mixsign-var-after-unbounded-var')
+    return sorted(cells)
 
 
 # ----------------------------------------------------------------------------------------------
